@@ -935,12 +935,18 @@ theorem Inv.addDerived {Γ : SEnv} {σ : DState} (inv : Inv Γ σ) {e : Entry} (
 
 /-! ### method calls -/
 
+/-- how a call's result (if any) is declared -/
+def DeclRes (Γ1 Γ' : SEnv) (res : Option Entry) : Prop :=
+  match res with
+  | none => Γ' = Γ1
+  | some ne => Γ1.declare ne = .ok Γ'
+
 theorem checkCall_ok {t : Table} {Γ Γ' : SEnv} {x h : Var} {op : Op} {owner name : String}
     (hc : checkCall t Γ x h op owner name = .ok Γ') :
     ∃ sig e Γ1 res, sig ∈ t.sigs ∧ sig.op = op ∧ op ≠ .enterScoped ∧ op ≠ .enterAligned ∧
       Γ.lookupValid h = .ok e ∧ applicable t sig.ownerK e = true ∧ Γ.access e (effRecv sig) = .ok Γ1 ∧
       mkResult x Γ.depth e (effRecv sig).mode sig.ret sig.lts = some res ∧
-      (match res with | none => Γ' = Γ1 | some ne => Γ1.declare ne = .ok Γ') := by
+      DeclRes Γ1 Γ' res := by
   unfold checkCall at hc
   cases hl : t.lookup owner name with
   | none => rw [hl] at hc; cases hc
